@@ -1,6 +1,14 @@
 """G16 — nesting discipline of the macro-argument lexer; G17 — escape discipline of string-shaped lexemes;
 G18 — the preprocessor's partition of the text: the plain-text run stops exactly where a sibling alternative can start.
 
+G22.  Comment lexemes  OPEN BODY CLOSE  (CLOSE optional for the one-line comment, which may end the text): the body is a
+repetition of a negated character class plus guarded single characters.  IEEE 5.4: a one-line comment ends with the
+newline, a block comment with */ .  Hence every character the body stops at is the first character of a closer; a closer
+longer than one character needs a guarded chunk that lets the body continue when its first character is not followed by
+the rest (`*` not before `/`); the first character of every closer is a stop character.  A body that stops at a character
+which only sometimes starts a closer (a lone CR when the closers are CRLF and LF) ends the comment early: the rest of the
+line is lexed as source text.
+
 G18.  The preprocessor grammar cuts the text into  comment | string | escaped identifier | plain run | directive.  The plain
 run is a repetition of a negated character class (plus special cases for single characters that only sometimes start a
 sibling).  For "directive-free text passes unchanged and is rejected only when a string / comment is unterminated":
@@ -266,6 +274,77 @@ def run_partition(ctx):
     return r
 
 
+def run_comments(ctx):
+    g = ctx.grammar
+    r = RuleResult('G22', 'comment lexemes: the body stops exactly where a closer starts, and continues past a partial closer')
+    W = lambda fn: '%s/%s:%d' % (g.crate, fn.file, fn.line)
+    n = 0
+    for f in g.parsers():
+        if not f.tail or f.tail[0] != 'ok' or not isinstance(f.tail[2], dict) or f.tail[2].get('k') != 'struct' or f.tail[2].get('p') != 'Comment':
+            continue
+        ps = parts_of(f)
+        if len(ps) < 2 or lit_of(ps[0]) is None:
+            continue
+        n += 1
+        key = '%s:%s' % (g.crate, f.name)
+        opener = lit_of(ps[0])
+        last = ps[-1]
+        optional_close = last.get('op') == 'opt'
+        core = last['p'] if optional_close else last
+        arms = core['arms'] if core.get('op') == 'alt' else [core]
+        closers = [lit_of(a) for a in arms]
+        if None in closers or len(ps) != 3:
+            r.undecided(key + ':shape', W(f), '%s is not OPEN BODY CLOSE with literal closers' % f.name)
+            continue
+        cls = None
+        guards = {}
+        unknown = False
+        for ch in chunks_of(ps[1]):
+            k = neg_class(ch) if ch.get('op') == 'prim' else None
+            if k is not None:
+                cls = k if cls is None else (cls & k)
+                continue
+            if ch.get('op') == 'terminated' and lit_of(ch['p']) is not None and len(lit_of(ch['p'])) == 1:
+                q = ch['q']
+                core_q = q['p'] if q.get('op') == 'peek' else q
+                if core_q.get('op') == 'not':
+                    inner = core_q['p']
+                    iarms = inner['arms'] if inner.get('op') == 'alt' else [inner]
+                    ex = {lit_of(a) for a in iarms}
+                    if None not in ex:
+                        guards[lit_of(ch['p'])] = ex
+                        continue
+            unknown = True
+            r.undecided(key + ':chunk', W(f), '%s: body chunk `%s` is not a class or a guarded single character' % (f.name, grammar.show(ch)[:50]))
+        r.inst(key, {'comment': f.name, 'opens_with': opener, 'closers': closers, 'closer_optional': optional_close,
+                     'body_stops_at': ''.join(sorted(cls)).encode('unicode_escape').decode() if cls else None, 'guards': {k_: sorted(v) for k_, v in guards.items()}})
+        if cls is None:
+            if not unknown:
+                r.undecided(key + ':class', W(f), '%s: no negated character class in the body' % f.name)
+            continue
+        firsts = {c[0] for c in closers if c}
+        for c_ in sorted(cls - firsts):
+            r.fail('%s:stops-without-closer:%s' % (key, c_.encode('unicode_escape').decode()), W(f),
+                   '%s: the body stops at %r, which starts no closer (%s): the comment %s there' %
+                   (f.name, c_, closers, 'ends' if optional_close else 'fails'))
+        for c_ in sorted(firsts - cls):
+            r.fail('%s:closer-swallowed:%s' % (key, c_.encode('unicode_escape').decode()), W(f), '%s: the body does not stop at %r, the first character of a closer: it runs past the end of the comment' % (f.name, c_))
+        for c_ in sorted(cls & firsts):
+            longer = [c for c in closers if c[0] == c_ and len(c) > 1]
+            single = [c for c in closers if c == c_]
+            if longer and not single:
+                want = {c[1:] for c in longer}
+                if c_ not in guards:
+                    if not unknown:
+                        r.fail('%s:partial-closer-ends-body:%s' % (key, c_.encode('unicode_escape').decode()), W(f),
+                               '%s: the body stops at %r, which closes the comment only as part of %s; nothing lets the body continue when the rest does not follow, so a lone '
+                               '%r ends the comment early and the remainder of the comment is lexed as source text' % (f.name, c_, longer, c_))
+                elif guards[c_] != want:
+                    r.fail('%s:guard-mismatch:%s' % (key, c_.encode('unicode_escape').decode()), W(f), '%s: a lone %r is taken unless followed by %s; the closers need %s' % (f.name, c_, sorted(guards[c_]), sorted(want)))
+    r.floor('comment_lexemes', n, 2)
+    return r
+
+
 def run(ctx):
     g = ctx.grammar
     r16 = RuleResult('G16', 'macro-argument lexer: commas separate arguments only outside matched (), [], {} and strings')
@@ -293,7 +372,7 @@ def run(ctx):
             tops.setdefault(lx.name, (lx, []))[1].append(node)
     if not tops:
         r16.fail('anchor:argument-lexer', '-', 'no lexeme under the parsers building ActualArgument / DefaultText found (fail closed)')
-        return [r16, r17, run_partition(ctx)]
+        return [r16, r17, run_partition(ctx), run_comments(ctx)]
     BR = set('()[]{}') | {'"'}
 
     def judge_level(lx, top, depth, visited):
@@ -371,4 +450,4 @@ def run(ctx):
     for name, (lx, nodes) in sorted(tops.items()):
         judge_level(lx, True, 0, visited)
     r16.floor('argument_lexer_levels', len(visited), 2)
-    return [r16, r17, run_partition(ctx)]
+    return [r16, r17, run_partition(ctx), run_comments(ctx)]
